@@ -193,12 +193,14 @@ def init_text(toks):
 
 
 class Case:
-    __slots__ = ("ty", "toks", "val", "text", "key", "ovr")
+    __slots__ = ("ty", "toks", "val", "text", "key", "dis")
 
     def __init__(self, b):
         self.ty, self.toks = b["ty"], b["toks"]
         self.val = {tuple(e["p"]): e["v"] for e in b["val"]}
-        self.ovr = bool(b.get("ovr"))
+        self.dis = {}                    # path -> values given earlier and discarded by a later `{`/string (p19)
+        for e in b.get("dis") or []:
+            self.dis.setdefault(tuple(e["p"]), set()).add(e["v"])
         self.text = init_text(self.toks)
         self.key = self.ty + " = " + self.text
 
@@ -330,7 +332,8 @@ def run_batches(ctx, compiler, tree, T, cases, tag, per=300, limit=None):
 
 
 # ---------------------------------------------------------------- classification
-PRIORITY = ["flex-indexed", "flex-elided-then-designator", "flex-initialised-twice", "override-whole-subobject", "braced-string",
+FLEXF = {"flex-indexed", "flex-elided-then-designator", "flex-initialised-twice"}
+PRIORITY = ["flex-indexed", "flex-elided-then-designator", "flex-initialised-twice", "braced-string",
             "range-nested", "range", "nested-designator", "unnamed-bitfield", "bitfield", "union", "anonymous-member",
             "flex", "string", "unknown-bound", "trailing-comma", "plain"]
 
@@ -376,8 +379,6 @@ def features(T, c):
             flex_elided_at = j
     if flex_items >= 2:
         f.add("flex-initialised-twice")
-    if c.ovr:
-        f.add("override-whole-subobject")
 
     def walk(t):
         d = tt[t]
@@ -402,9 +403,48 @@ def features(T, c):
     return f
 
 
+def sections(line):
+    """{'S': [...], 'A': [...] or None, 'Z': [...] or None} of an output / expectation line"""
+    x = line.split()[2:]
+    out, cur = {"S": None, "A": None, "Z": None}, None
+    for w in x:
+        if w in out:
+            cur = w
+            out[w] = []
+        else:
+            out[cur].append(w)
+    return out
+
+
+def only_survivors(T, c, exp, got):
+    """D35, exactly: a `{`/string re-initialised a subobject that already had initializers, both objects
+    agree with each other, and every leaf that differs from the specification holds a value that was
+    given for that very leaf earlier and discarded by the later `{`/string (the specification has the
+    implicit zero, or a later value, there)."""
+    if not c.dis or got is None:
+        return False
+    e, g = sections(exp), sections(got)
+    if g["S"] is None or e["Z"] != g["Z"] or (e["A"] is None) != (g["A"] is None):
+        return False
+    if g["A"] is not None and g["A"] != g["S"]:
+        return False
+    lv = case_plan(T, c)[0]
+    if len(lv) != len(g["S"]) or len(lv) != len(e["S"]):
+        return False
+    diff = False
+    for (path, _, kind), ev, gv in zip(lv, e["S"], g["S"]):
+        if ev != gv:
+            diff = True
+            if gv not in {str(expect_leaf(kind, {path: v}, path)) for v in c.dis.get(path, ())}:
+                return False
+    return diff
+
+
 def classify(T, c, exp, got):
     """signature of a discrepancy: which back end is wrong + the syntactic class of the initializer"""
     ft = features(T, c)
+    if not (ft & FLEXF) and only_survivors(T, c, exp, got):
+        return "init:both:override-whole-subobject"
     if got is None:
         side = "rejected"
     else:
@@ -453,7 +493,7 @@ def compare(ctx, tree, T, cases, tag, first=0, per=300, limit=None):
             what = "%s = %s : spec (=gcc) `%s`, chibicc %s" % (
                 T.decl(c.ty, "x"), c.text, exp.split(" ", 2)[2],
                 "`%s`" % got.split(" ", 2)[2] if got else "does not compile/run it: %s" % (rejected[i],))
-            ctx.report(sig, what, case=dict(kind="init", ty=c.ty, toks=c.toks, ovr=c.ovr, val=[dict(p=list(p), v=v) for p, v in c.val.items()],
+            ctx.report(sig, what, case=dict(kind="init", ty=c.ty, toks=c.toks, dis=[dict(p=list(p), v=v) for p, vs in c.dis.items() for v in sorted(vs)], val=[dict(p=list(p), v=v) for p, v in c.val.items()],
                                             index=i, expected=exp, got=got, source=batch_source(T, [(i, c)])))
     ctx.cov["traces_validated_against_impl"] += len(res)
     return res, unjudged, wrong
@@ -540,7 +580,6 @@ def run(ctx):
     # cases in the classes of the open finding D37 (flexible array member designated / initialised twice) are
     # mostly rejected by the compiler; a seed-selected tenth of them is replayed in small batches so that
     # they cannot take the other cases of a batch with them
-    FLEXF = {"flex-indexed", "flex-elided-then-designator", "flex-initialised-twice"}
     prone = [c for c in cases if features(T, c) & FLEXF]
     pk = set(c.key for c in prone)
     sel = [c for c in cases if c.key not in pk]
@@ -574,7 +613,7 @@ def replay(ctx, path):
         out = os.path.join(ctx.scratch, "tt.ndjson")
         generate(ctx, [c["ty"]], out, MaxItems=2, Emit=True)
         T, _ = load(out)
-        compare(ctx, tree, T, [Case(dict(ty=c["ty"], toks=c["toks"], val=c["val"], ovr=c.get("ovr")))], "init", first=c.get("index", 0))
+        compare(ctx, tree, T, [Case(dict(ty=c["ty"], toks=c["toks"], val=c["val"], dis=c.get("dis")))], "init", first=c.get("index", 0))
     elif c.get("kind") == "tlc":
         cfg = os.path.join(ctx.scratch, "replay.cfg")
         open(cfg, "w").write(c["cfg"])
